@@ -21,6 +21,7 @@ class FakeServer:
         self.replies_by_line = {}     # whole command line -> raw reply (takes precedence over the per-verb table)
         self.completion = b"226 done\r\n"   # what follows a transfer (None: nothing at all)
         self.sent = b""               # everything written on control connections
+        self.script = None            # list of raw replies, one per command in the order they come (before any table)
 
     async def start(self):
         self.server = await asyncio.start_server(self.handle, "127.0.0.1", self.port)
@@ -51,6 +52,9 @@ class FakeServer:
             verb, _, arg = text.partition(" ")
             verb = verb.upper()
             self.commands.append(text)
+            if self.script:
+                writer.write(self.script.pop(0))
+                continue
             if text in self.replies_by_line:
                 writer.write(self.replies_by_line[text])
                 continue
